@@ -28,7 +28,7 @@ def jobs(tier):
 IDX_PATCHES = [
     {"file": "internal/db/fetcher/versioned.go",
      "anchor": "\troot := memory.NewDatastore(ctx)\n\tvf.root = root\n",
-     "replace": "\tvar root corekv.TxnStore\n\tif verifMemStore != nil {\n\t\troot = verifMemStore()\n\t} else {\n\t\troot = memory.NewDatastore(ctx)\n\t}\n\tvf.root = root\n"},
+     "replace": "\tvar root corekv.TxnStore\n\tif VerifMemStore != nil {\n\t\troot = VerifMemStore()\n\t} else {\n\t\troot = memory.NewDatastore(ctx)\n\t}\n\tvf.root = root\n"},
 ]
 
 
@@ -37,12 +37,27 @@ def idx_jobs(tier):
              "_obligation": "O2", "_covers": ["read"], "unwind": 60, "reset_mode": True}]
 
 
+from props import C09 as _c09
+
+REQ_REDIR = dict(REDIR)
+REQ_REDIR.update(_c02.REDIR)
+REQ_REDIR.update(_c09.REDIR)
+
+
+def request_jobs(tier):
+    return [{"id": f"O3.request-at-commit.{nm}", "func": "VerifH_C03_RequestAtCommit", "conf": {"n": dag.count("|") + 1, "dag": dag, "orders": "two", "shortid": 0, "del": -1},
+             "_obligation": "O3", "_covers": ["ran"], "unwind": 80, "reset_mode": True} for nm, dag in (("two-heads", "-|0|0"), ("linear-3", "-|0|1"))]
+
+
 PROPERTY = {
     "id": "C03",
     "suites": [{"name": "versioned", "pkg": "internal/db/fetcher", "files": ["zz_verif_c03.go"], "common": ["intrinsics", "kvmodel", "dagenv"],
                 "jobs": jobs, "overrides": OVR, "redirects": REDIR, "unwind": 40, "witnesses": {"quick": 12, "thorough": 32}},
-               {"name": "readwithindex", "pkg": "internal/db/fetcher", "files": ["zz_verif_c03.go", "zz_verif_c03idx.go"], "common": ["intrinsics", "kvmodel", "dagenv", "kvtxn"],
-                "jobs": idx_jobs, "overrides": OVR, "redirects": REDIR, "patches": IDX_PATCHES, "unwind": 60}],
+               {"name": "readwithindex", "pkg": "internal/db/fetcher", "files": ["zz_verif_c03.go", "zz_verif_c03idx.go", "zz_verif_memhook.go"], "common": ["intrinsics", "kvmodel", "dagenv", "kvtxn"],
+                "jobs": idx_jobs, "overrides": OVR, "redirects": REDIR, "patches": IDX_PATCHES, "unwind": 60},
+               {"name": "request", "pkg": "internal/planner", "files": ["zz_verif_query.go", "zz_verif_c03q.go"], "common": ["intrinsics", "kvmodel", "dagenv", "kvtxn"],
+                "jobs": request_jobs, "overrides": OVR, "redirects": REQ_REDIR, "patches": IDX_PATCHES, "unwind": 80,
+                "extra_overlay": {"internal/db/fetcher/zz_verif_memhook.go": "internal/db/fetcher/zz_verif_memhook.go"}}],
     "bounds": {"commits": "linear histories of 3 and 4 commits, a diamond, a diamond with a tail, two chains joined by a merge commit; every DAG of 3 (thorough 4) commits with <=2 parents", "target": "every commit", "fields": "one counter or one register field written by every commit"},
     "assumptions": _c02.PROPERTY["assumptions"],
     "outside_claim": ["subscriptions", "planner wiring (scanNode), ACP on this path, encrypted history", "the document fetcher that reads the transient store afterwards"],
